@@ -441,7 +441,10 @@ write_field_info (const gchar *namespace,
     }
 
   interface = g_type_info_get_interface (type);
-  if (interface && g_base_info_get_type(interface) == GI_INFO_TYPE_CALLBACK)
+  /* Only a callback embedded in the field is written inline; a field whose
+   * type refers to a callback of the namespace is a plain type reference */
+  if (interface && g_base_info_get_type(interface) == GI_INFO_TYPE_CALLBACK &&
+      g_base_info_get_container (interface) != NULL)
     write_callback_info (namespace, (GICallbackInfo *)interface, file);
   else
     write_type_info (namespace, type, file);
